@@ -106,6 +106,7 @@ type Backend struct {
 	ActiveConnections int32        // Number of active connections
 	Weight            int          // Weight for weighted load balancing strategies
 	Mutex             sync.RWMutex // Mutex for thread-safe operations
+	gaugeMu           sync.Mutex   // Makes reading ActiveConnections and publishing the reading one step
 }
 
 // healthChecker manages health checks for backends
@@ -699,6 +700,16 @@ func (lb *LoadBalancer) handleRequest(w http.ResponseWriter, r *http.Request, st
 	return lb.proxyRequest(backend, w, r, startTime)
 }
 
+// publishConnections publishes the backend's in-flight gauge to the metrics. Reading the
+// counter and publishing the reading are one step per backend: otherwise, of two requests
+// finishing together, the older reading can be published last and the gauge stays above
+// zero while the backend is idle
+func (lb *LoadBalancer) publishConnections(backend *Backend) {
+	backend.gaugeMu.Lock()
+	lb.metricsCollector.UpdateBackendConnections(backend.Name, backend.GetActiveConnections())
+	backend.gaugeMu.Unlock()
+}
+
 // findHealthyBackend attempts to find a healthy backend with retries
 func (lb *LoadBalancer) findHealthyBackend(r *http.Request) *Backend {
 	for i := 0; i < 3; i++ { // Try up to 3 times to find a healthy backend
@@ -718,7 +729,7 @@ func (lb *LoadBalancer) findHealthyBackend(r *http.Request) *Backend {
 func (lb *LoadBalancer) proxyRequest(backend *Backend, w http.ResponseWriter, r *http.Request, startTime time.Time) error {
 	// Track the active connection
 	backend.IncrementConnections()
-	lb.metricsCollector.UpdateBackendConnections(backend.Name, backend.GetActiveConnections())
+	lb.publishConnections(backend)
 
 	// Create a custom response writer to capture the status code
 	rw := &responseWriter{
@@ -733,7 +744,7 @@ func (lb *LoadBalancer) proxyRequest(backend *Backend, w http.ResponseWriter, r 
 	defer func() {
 		// Decrement the connection count when done
 		backend.DecrementConnections()
-		lb.metricsCollector.UpdateBackendConnections(backend.Name, backend.GetActiveConnections())
+		lb.publishConnections(backend)
 
 		if !completed {
 			rw.statusCode = http.StatusBadGateway
